@@ -1,6 +1,345 @@
-//! C05 — not built yet.
-use crate::rt::*;
+//! C05 — moving down the modulus chain terminates, hits the target, keeps the message.
+//! Every (source level, target level) pair of every chain of length 1..6, ciphertext sizes
+//! 2..4, three schemes, every API form. Termination is decided by a watchdog (bounded
+//! progress); message preservation by the library decryptor and the oracle decryptor.
 
-pub fn run(_cfg: &Cfg, _rep: &mut Report) -> PropMeta {
-    PropMeta { id: "C05", level: "exploration", rule: "not built", assumptions: vec![], exhaustive: false, floor: 1 }
+use crate::he::*;
+use crate::prog::*;
+use crate::props::c01::gen_plain;
+use crate::props::c06::same_ct;
+use crate::refm;
+use crate::rt::*;
+use heathcliff::*;
+use serde_json::json;
+use std::sync::atomic::{AtomicBool, Ordering};
+use std::sync::mpsc;
+use std::sync::Arc;
+use std::time::Duration;
+
+const P: &str = "C05";
+static HANG_SEEN: AtomicBool = AtomicBool::new(false);
+
+#[derive(Debug)]
+pub enum Outcome<T> { Done(T), Refused(String), Hang }
+
+/// run `f` on a worker thread with a deadline; a call that does not return is reported as Hang
+/// (the thread is abandoned; the process exits at the end of the run)
+pub fn watchdog<T: Send + 'static>(deadline: Duration, f: impl FnOnce() -> T + Send + 'static) -> Outcome<T> {
+    let (tx, rx) = mpsc::channel();
+    std::thread::spawn(move || { let r = lib(f); let _ = tx.send(r); });
+    match rx.recv_timeout(deadline) {
+        Ok(Ok(v)) => Outcome::Done(v),
+        Ok(Err(p)) => Outcome::Refused(p.0),
+        Err(_) => Outcome::Hang,
+    }
+}
+
+struct Obs<'a> { cfg: &'a Cfg, grp: &'a str, case: u64, spec: &'a Spec }
+fn viol(o: &Obs, rep: &mut Report, op: &str, class: &str, kind: &str, detail: String) {
+    rep.violation(&format!("{}|{}|{}|{}", P, op, class, kind), format!("{} ; params {}", detail, o.spec.describe()), replay_json(o.cfg, o.grp, o.case, json!({"params": o.spec.describe(), "op": op, "class": class})));
+}
+
+fn chain_spec(rng: &mut Rng, scheme: SchemeType, levels: usize, special_flag: bool) -> Option<Spec> {
+    let n = *rng.pick(&[4usize, 8, 16]);
+    let k = if special_flag || levels == 1 && rng.bool() { levels } else { levels + 1 };
+    let bits: Vec<u32> = (0..k).map(|_| rng.range(48, 60) as u32).collect();
+    let qs = coeff_primes(n, &bits, rng)?;
+    let t = if scheme == SchemeType::CKKS { 0 } else { *rng.pick(&[2u64, 3, 16, 17, 97, 257]) };
+    if t != 0 && qs.iter().any(|&q| refm::gcd(q, t) != 1) { return None; }
+    Some(Spec { scheme, n, qs, t, special_flag: special_flag && k > 1, expand: true, family: format!("chain{}", levels) })
+}
+
+const API_CT: [&str; 3] = ["inplace", "dest", "new"];
+
+fn deadline(cfg: &Cfg) -> Duration { Duration::from_secs(cfg.pick(10, 20)) }
+
+/// BFV / BGV
+fn exact_case(cfg: &Cfg, grp: &str, case: u64, rng: &mut Rng, rep: &mut Report, scheme: SchemeType, levels: usize) {
+    let sf = rng.chance(1, 4);
+    let Some(spec) = chain_spec(rng, scheme, levels, sf) else { return };
+    let Ok(kit) = Kit::new(&spec) else { rep.count("generator", "rejected"); return; };
+    if kit.levels.len() != levels { rep.count("generator", "chain_length_differs"); }
+    let kit = Arc::new(kit);
+    let o = Obs { cfg, grp, case, spec: &spec };
+    let nl = kit.levels.len();
+    rep.count("chains", &format!("{}|levels={}|keylevel_separate={}", spec.scheme_name(), nl, kit.has_keyswitching()));
+    // BGV correction factor bookkeeping reference: f * prod q_dropped^-1 mod t
+    let t = spec.t;
+    for size in 2..=4usize {
+        let mut m = Machine::new(&kit, true);
+        let (_, c0) = gen_plain(rng, m.n(), t);
+        if m.fresh(&c0, rng.bool()).is_err() { return; }
+        let mut cur = 0usize;
+        let mut built = true;
+        for _ in 2..size {
+            let (_, c) = gen_plain(rng, m.n(), t);
+            let Ok(f) = m.fresh(&c, rng.bool()) else { return };
+            let op = Op::Multiply(cur, f);
+            match m.execute(&op, Form::New) { Ok(ct) => { let el = m.result_elem(&op, ct); m.pool.push(el); cur = m.pool.len() - 1; } Err(_) => { built = false; break; } }
+        }
+        if !built { continue; }
+        // source ciphertexts per level, stepping with to_next (each step is itself the (i,i+1) pair)
+        let mut at_level: Vec<usize> = vec![cur];
+        for i in 0..nl - 1 {
+            let op = Op::ModSwitchNext(at_level[i]);
+            match m.execute(&op, Form::New) {
+                Ok(ct) => { let el = m.result_elem(&op, ct); m.pool.push(el); at_level.push(m.pool.len() - 1); }
+                Err(p) => { viol(&o, rep, "mod_switch_to_next", &format!("{}|size={}", spec.scheme_name(), size), "panic", format!("step {}->{} refused: {}", i, i + 1, p.0)); return; }
+            }
+        }
+        for src in 0..nl { for tgt in 0..nl {
+            let src_el = m.pool[at_level[src]].clone();
+            let tgt_id = *kit.levels[tgt].parms_id();
+            for api in API_CT {
+                if HANG_SEEN.load(Ordering::SeqCst) { return; }
+                let (k2, ct, eval_api) = (kit.clone(), src_el.ct.clone(), api);
+                let out = watchdog(deadline(cfg), move || match eval_api {
+                    "inplace" => { let mut x = ct.clone(); k2.eval.mod_switch_to_inplace(&mut x, &tgt_id); x }
+                    "dest" => { let mut d = dirty(&k2); k2.eval.mod_switch_to(&ct, &tgt_id, &mut d); d }
+                    _ => k2.eval.mod_switch_to_new(&ct, &tgt_id),
+                });
+                let cls = format!("{}|size={}|{}", spec.scheme_name(), size, if tgt > src { "down" } else if tgt == src { "same" } else { "up" });
+                rep.count("pairs", &format!("{}|mod_switch_to_{}|{}->{}|size={}", spec.scheme_name(), api, src, tgt, size));
+                rep.eval(Some(&format!("{}|mst|{}|{}|{}|{}", spec.scheme_name(), api, src, tgt, size)));
+                match out {
+                    Outcome::Hang => { HANG_SEEN.store(true, Ordering::SeqCst); viol(&o, rep, &format!("mod_switch_to_{}", api), &cls, "hang", format!("no return within {:?} ({}->{})", deadline(cfg), src, tgt)); return; }
+                    Outcome::Refused(msg) => {
+                        if tgt > src { viol(&o, rep, &format!("mod_switch_to_{}", api), &cls, "panic", format!("downward switch {}->{} refused: {}", src, tgt, msg)); }
+                        // tgt == src: refusal or identity are both acceptable; tgt < src: refusal required
+                    }
+                    Outcome::Done(res) => {
+                        if tgt < src { viol(&o, rep, &format!("mod_switch_to_{}", api), &cls, "not_refused", format!("upward switch {}->{} returned", src, tgt)); continue; }
+                        if res.parms_id() != &tgt_id { viol(&o, rep, &format!("mod_switch_to_{}", api), &cls, "value", format!("result is not on the target level ({}->{})", src, tgt)); continue; }
+                        let want = &m.pool[at_level[tgt]];
+                        if tgt == src { if !same_ct(&res, &src_el.ct) { viol(&o, rep, &format!("mod_switch_to_{}", api), &cls, "value", "switching to the current level changed the ciphertext".into()); } continue; }
+                        // deterministic: must equal the step-by-step result bit for bit
+                        if !same_ct(&res, &want.ct) { viol(&o, rep, &format!("mod_switch_to_{}", api), &cls, "value", format!("result differs from stepwise switching ({}->{})", src, tgt)); }
+                        // BGV factor bookkeeping, independently
+                        if scheme == SchemeType::BGV {
+                            let mut f = src_el.ct.correction_factor();
+                            for l in src..tgt { let ql = *kit.level_qs(l).last().unwrap(); f = refm::mulmod(f, refm::invmod(ql % t, t).unwrap_or(0), t); }
+                            if res.correction_factor() != f { viol(&o, rep, &format!("mod_switch_to_{}", api), &cls, "value", format!("correction factor {} != f*prod(q_dropped^-1) = {}", res.correction_factor(), f)); }
+                        }
+                        // message preserved (precondition: worst-case noise at the target within threshold)
+                        let ok_noise = m.within(want.e_an, want.level) || want.e_step.map(|e| m.within(e, want.level)).unwrap_or(false);
+                        if ok_noise {
+                            rep.count("message_checked", &format!("{}|{}->{}", spec.scheme_name(), src, tgt));
+                            let mres = Elem { ct: res.clone(), ..want.clone() };
+                            match m.lib_decrypt(&mres.ct) { Ok(got) => if got != src_el.m { viol(&o, rep, &format!("mod_switch_to_{}", api), &cls, "value", format!("message changed by switching {}->{}", src, tgt)); }, Err(p) => viol(&o, rep, "decrypt", &cls, "panic", p.0) }
+                            if let Some((om, b)) = m.oracle_decrypt(&mres.ct) { rep.min(&format!("budget_after_switch_{}", spec.scheme_name()), b as f64); if om != src_el.m { viol(&o, rep, &format!("mod_switch_to_{}", api), &format!("{}|oracle", cls), "value", format!("oracle: message changed by switching {}->{}", src, tgt)); } }
+                        } else { rep.out_of_precondition += 1; }
+                    }
+                }
+            }
+            // to_next forms from this source (tgt loop index reused only once)
+            if tgt == 0 {
+                for api in API_CT {
+                    if HANG_SEEN.load(Ordering::SeqCst) { return; }
+                    let (k2, ct) = (kit.clone(), src_el.ct.clone());
+                    let out = watchdog(deadline(cfg), move || match api {
+                        "inplace" => { let mut x = ct.clone(); k2.eval.mod_switch_to_next_inplace(&mut x); x }
+                        "dest" => { let mut d = dirty(&k2); k2.eval.mod_switch_to_next(&ct, &mut d); d }
+                        _ => k2.eval.mod_switch_to_next_new(&ct),
+                    });
+                    let last = src + 1 == nl;
+                    let cls = format!("{}|size={}|{}", spec.scheme_name(), size, if last { "past_last" } else { "down" });
+                    rep.count("pairs", &format!("{}|mod_switch_to_next_{}|{}|size={}", spec.scheme_name(), api, src, size));
+                    rep.eval(Some(&format!("{}|msn|{}|{}|{}", spec.scheme_name(), api, src, size)));
+                    match out {
+                        Outcome::Hang => { HANG_SEEN.store(true, Ordering::SeqCst); viol(&o, rep, &format!("mod_switch_to_next_{}", api), &cls, "hang", "no return".into()); return; }
+                        Outcome::Refused(msg) => if !last { viol(&o, rep, &format!("mod_switch_to_next_{}", api), &cls, "panic", format!("refused at level {}: {}", src, msg)); },
+                        Outcome::Done(res) => {
+                            if last { viol(&o, rep, &format!("mod_switch_to_next_{}", api), &cls, "not_refused", "switch past the last level returned".into()); }
+                            else if !same_ct(&res, &m.pool[at_level[src + 1]].ct) { viol(&o, rep, &format!("mod_switch_to_next_{}", api), &cls, "value", "API forms of mod_switch_to_next disagree".into()); }
+                        }
+                    }
+                    // rescale outside CKKS must be refused
+                    let (k2, ct) = (kit.clone(), src_el.ct.clone());
+                    let out = watchdog(deadline(cfg), move || match api {
+                        "inplace" => { let mut x = ct.clone(); k2.eval.rescale_to_next_inplace(&mut x); x }
+                        "dest" => { let mut d = dirty(&k2); k2.eval.rescale_to(&ct, k2.ctx.last_parms_id(), &mut d); d }
+                        _ => k2.eval.rescale_to_next_new(&ct),
+                    });
+                    rep.count("pairs", &format!("{}|rescale_outside_ckks_{}", spec.scheme_name(), api));
+                    match out {
+                        Outcome::Hang => { HANG_SEEN.store(true, Ordering::SeqCst); viol(&o, rep, "rescale", &format!("{}|outside_ckks", spec.scheme_name()), "hang", "no return".into()); return; }
+                        Outcome::Done(_) => viol(&o, rep, "rescale", &format!("{}|outside_ckks", spec.scheme_name()), "not_refused", "rescale returned in a non-CKKS scheme".into()),
+                        Outcome::Refused(_) => {}
+                    }
+                }
+            }
+        } }
+    }
+    // NTT-form plaintexts: switched == transformed directly at the target level
+    let (_, pc) = gen_plain(rng, kit.n(), t);
+    let plain = kit.plain_from_coeffs(&pc);
+    for src in 0..nl { for tgt in 0..nl {
+        let (sid, tid) = (*kit.levels[src].parms_id(), *kit.levels[tgt].parms_id());
+        let Ok(ps) = lib(|| kit.eval.transform_plain_to_ntt_new(&plain, &sid)) else { viol(&o, rep, "transform_plain_to_ntt", spec.scheme_name(), "panic", "refused".into()); return; };
+        let Ok(pt) = lib(|| kit.eval.transform_plain_to_ntt_new(&plain, &tid)) else { return };
+        for api in API_CT {
+            if HANG_SEEN.load(Ordering::SeqCst) { return; }
+            let (k2, p2) = (kit.clone(), ps.clone());
+            let out = watchdog(deadline(cfg), move || match api {
+                "inplace" => { let mut x = p2.clone(); k2.eval.mod_switch_plain_to_inplace(&mut x, &tid); x }
+                "dest" => { let mut d = Plaintext::new(); k2.eval.mod_switch_plain_to(&p2, &tid, &mut d); d }
+                _ => k2.eval.mod_switch_plain_to_new(&p2, &tid),
+            });
+            let cls = format!("{}|plain|{}", spec.scheme_name(), if tgt > src { "down" } else if tgt == src { "same" } else { "up" });
+            rep.count("pairs", &format!("{}|mod_switch_plain_to_{}|{}->{}", spec.scheme_name(), api, src, tgt));
+            rep.eval(Some(&format!("{}|mspt|{}|{}|{}", spec.scheme_name(), api, src, tgt)));
+            match out {
+                Outcome::Hang => { HANG_SEEN.store(true, Ordering::SeqCst); viol(&o, rep, &format!("mod_switch_plain_to_{}", api), &cls, "hang", "no return".into()); return; }
+                Outcome::Refused(msg) => if tgt > src { viol(&o, rep, &format!("mod_switch_plain_to_{}", api), &cls, "panic", format!("{}->{} refused: {}", src, tgt, msg)); },
+                Outcome::Done(res) => {
+                    if tgt < src { viol(&o, rep, &format!("mod_switch_plain_to_{}", api), &cls, "not_refused", "upward plaintext switch returned".into()); continue; }
+                    if res.parms_id() != &tid || res.data() != pt.data() || res.coeff_count() != pt.coeff_count() || res.scale().to_bits() != pt.scale().to_bits() {
+                        viol(&o, rep, &format!("mod_switch_plain_to_{}", api), &cls, "value", format!("switched plaintext differs from the one transformed directly at the target level ({}->{})", src, tgt));
+                    }
+                }
+            }
+        }
+        if tgt == src + 1 {
+            for api in API_CT {
+                let r = lib(|| match api { "inplace" => { let mut x = ps.clone(); kit.eval.mod_switch_to_next_plain_inplace(&mut x); x } "dest" => { let mut d = Plaintext::new(); kit.eval.mod_switch_to_next_plain(&ps, &mut d); d } _ => kit.eval.mod_switch_to_next_plain_new(&ps) });
+                rep.count("pairs", &format!("{}|mod_switch_to_next_plain_{}|{}", spec.scheme_name(), api, src));
+                match r { Ok(res) => if res.parms_id() != &tid || res.data() != pt.data() { viol(&o, rep, &format!("mod_switch_to_next_plain_{}", api), spec.scheme_name(), "value", "plaintext switched to the next level differs from direct transform".into()); },
+                          Err(p) => viol(&o, rep, &format!("mod_switch_to_next_plain_{}", api), spec.scheme_name(), "panic", p.0) }
+            }
+        }
+    } }
+    // past the last level (plaintext)
+    let lid = *kit.levels[nl - 1].parms_id();
+    if let Ok(pl) = lib(|| kit.eval.transform_plain_to_ntt_new(&plain, &lid)) {
+        if lib(|| kit.eval.mod_switch_to_next_plain_new(&pl)).is_ok() { viol(&o, rep, "mod_switch_to_next_plain_new", &format!("{}|past_last", spec.scheme_name()), "not_refused", "plaintext switch past the last level returned".into()); }
+    }
+}
+
+/// CKKS
+fn ckks_case(cfg: &Cfg, grp: &str, case: u64, rng: &mut Rng, rep: &mut Report, levels: usize) {
+    let sf = rng.chance(1, 4);
+    let Some(spec) = chain_spec(rng, SchemeType::CKKS, levels, sf) else { return };
+    let Ok(kit) = Kit::new(&spec) else { rep.count("generator", "rejected"); return; };
+    let kit = Arc::new(kit);
+    let o = Obs { cfg, grp, case, spec: &spec };
+    let nl = kit.levels.len(); let n = kit.n();
+    rep.count("chains", &format!("CKKS|levels={}|keylevel_separate={}", nl, kit.has_keyswitching()));
+    let Ok(oracle) = Oracle::new(&kit.ctx, &kit.sk) else { return };
+    let enc = kit.ckks.as_ref().unwrap();
+    let bits_of = |l: usize| -> f64 { kit.level_qs(l).iter().map(|&q| (q as f64).log2()).sum() };
+    for size in 2..=4usize {
+        // product of (size-1) fresh ciphertexts with scale 2^s each; keep s*(size-1) + value bits below the last level
+        let s = rng.range(8, 14) as i32;
+        let scale = 2f64.powi(s);
+        let mk = |rng: &mut Rng| -> Vec<C64> { (0..n / 2).map(|_| C64::new(rng.f64() * 2.0 - 1.0, rng.f64() * 2.0 - 1.0)).collect() };
+        let v0 = mk(rng);
+        let Ok(mut ct) = lib(|| kit.enc.encrypt_new(&enc.encode_c64_array_new(&v0, None, scale))) else { return };
+        for _ in 2..size { let v = mk(rng); let Ok(c2) = lib(|| kit.enc.encrypt_symmetric_new(&enc.encode_c64_array_new(&v, None, scale)).expand_seed(&kit.ctx)) else { return }; match lib(|| kit.eval.multiply_new(&ct, &c2)) { Ok(c) => ct = c, Err(_) => return } }
+        // reference slots of a ciphertext by the oracle
+        let slots_of = |c: &Ciphertext| -> Vec<C64> { embed_decode(&oracle.ckks_coeffs(&kit.ctx, c)) };
+        let geo: f64 = (0..size).map(|j| (n as f64).powi(j as i32)).sum();
+        for mode in ["mod_switch", "rescale"] {
+            // stepwise sources
+            let mut at_level: Vec<Option<Ciphertext>> = vec![Some(ct.clone())];
+            for i in 0..nl - 1 {
+                let prev = at_level[i].clone();
+                let next = prev.and_then(|p| lib(|| if mode == "rescale" { kit.eval.rescale_to_next_new(&p) } else { kit.eval.mod_switch_to_next_new(&p) }).ok());
+                at_level.push(next);
+            }
+            for src in 0..nl { for tgt in 0..nl {
+                let Some(src_ct) = at_level[src].clone() else { continue };
+                let tgt_id = *kit.levels[tgt].parms_id();
+                for api in API_CT {
+                    if HANG_SEEN.load(Ordering::SeqCst) { return; }
+                    let (k2, c2) = (kit.clone(), src_ct.clone());
+                    let md = mode;
+                    let out = watchdog(deadline(cfg), move || match (md, api) {
+                        ("rescale", "inplace") => { let mut x = c2.clone(); k2.eval.rescale_to_inplace(&mut x, &tgt_id); x }
+                        ("rescale", "dest") => { let mut d = dirty(&k2); k2.eval.rescale_to(&c2, &tgt_id, &mut d); d }
+                        ("rescale", _) => k2.eval.rescale_to_new(&c2, &tgt_id),
+                        (_, "inplace") => { let mut x = c2.clone(); k2.eval.mod_switch_to_inplace(&mut x, &tgt_id); x }
+                        (_, "dest") => { let mut d = dirty(&k2); k2.eval.mod_switch_to(&c2, &tgt_id, &mut d); d }
+                        _ => k2.eval.mod_switch_to_new(&c2, &tgt_id),
+                    });
+                    let opn = format!("{}_to_{}", mode, api);
+                    let cls = format!("CKKS|size={}|{}", size, if tgt > src { "down" } else if tgt == src { "same" } else { "up" });
+                    rep.count("pairs", &format!("CKKS|{}|{}->{}|size={}", opn, src, tgt, size));
+                    rep.eval(Some(&format!("CKKS|{}|{}|{}|{}", opn, src, tgt, size)));
+                    // expected scale, computed with the same f64 operations the property implies
+                    let mut want_scale = src_ct.scale();
+                    if mode == "rescale" { for l in src..tgt.max(src) { want_scale /= *kit.level_qs(l).last().unwrap() as f64; } }
+                    // library refuses a plain switch whose scale does not fit the next level: that is C03's clause; out of scope here
+                    let scale_fits = mode == "rescale" || (src..tgt.max(src)).all(|l| (src_ct.scale().log2().floor() as isize) < (kit.levels[l + 1].total_coeff_modulus_bit_count() as isize));
+                    match out {
+                        Outcome::Hang => { HANG_SEEN.store(true, Ordering::SeqCst); viol(&o, rep, &opn, &cls, "hang", format!("no return within {:?} ({}->{})", deadline(cfg), src, tgt)); return; }
+                        Outcome::Refused(msg) => { if tgt > src && scale_fits && at_level[tgt].is_some() { viol(&o, rep, &opn, &cls, "panic", format!("downward {} {}->{} refused: {}", mode, src, tgt, msg)); } }
+                        Outcome::Done(res) => {
+                            if tgt < src { viol(&o, rep, &opn, &cls, "not_refused", format!("upward {} {}->{} returned", mode, src, tgt)); continue; }
+                            if res.parms_id() != &tgt_id || res.size() != src_ct.size() || !res.is_ntt_form() { viol(&o, rep, &opn, &cls, "value", format!("result not on the target level / wrong shape ({}->{})", src, tgt)); continue; }
+                            if tgt == src { if !same_ct(&res, &src_ct) { viol(&o, rep, &opn, &cls, "value", "moving to the current level changed the ciphertext".into()); } continue; }
+                            if res.scale().to_bits() != want_scale.to_bits() { viol(&o, rep, &opn, &format!("{}|scale", cls), "value", format!("scale {} != expected {} ({}->{})", res.scale(), want_scale, src, tgt)); continue; }
+                            if let Some(w) = &at_level[tgt] { if !same_ct(&res, w) { viol(&o, rep, &opn, &cls, "value", format!("result differs from stepwise {} ({}->{})", mode, src, tgt)); } }
+                            // message preserved: compare with the oracle-decoded source
+                            let src_coeffs = oracle.phase(&kit.ctx, &src_ct).0;
+                            let maxc = src_coeffs.iter().map(|x| x.to_f64().abs()).fold(0.0, f64::max);
+                            let dropped: f64 = if mode == "rescale" { (src..tgt).map(|l| (*kit.level_qs(l).last().unwrap() as f64).log2()).sum() } else { 0.0 };
+                            if maxc.max(1.0).log2() - dropped + 2.0 >= bits_of(tgt) { rep.out_of_precondition += 1; continue; }
+                            let a = slots_of(&src_ct); let b = slots_of(&res);
+                            let lib_dec = lib(|| enc.decode_new(&kit.dec.decrypt_new(&res)));
+                            let steps = (tgt - src) as f64;
+                            let tol = if mode == "rescale" { (n as f64) * steps * (geo / 2.0 + 1.0) / res.scale() } else { 0.0 } + ckks_fp_tolerance(n, kit.level_qs(src).len(), a.iter().map(|x| x.norm()).fold(0.0, f64::max), res.scale().min(src_ct.scale()));
+                            let worst = a.iter().zip(&b).map(|(x, y)| (x - y).norm()).fold(0.0, f64::max);
+                            rep.count("message_checked", &format!("CKKS|{}|{}->{}", mode, src, tgt));
+                            rep.max("ckks_error_over_tolerance", worst / tol);
+                            if !(worst <= tol) { viol(&o, rep, &opn, &format!("{}|oracle", cls), "value", format!("decoded values moved by {:e} > {:e} ({}->{})", worst, tol, src, tgt)); }
+                            match lib_dec { Ok(d) => { let w2 = a.iter().zip(&d).map(|(x, y)| (x - y).norm()).fold(0.0, f64::max); if !(w2 <= tol) { viol(&o, rep, &opn, &cls, "value", format!("library-decoded values moved by {:e} > {:e} ({}->{})", w2, tol, src, tgt)); } }
+                                            Err(p) => viol(&o, rep, "decrypt", &cls, "panic", p.0) }
+                        }
+                    }
+                }
+            } }
+        }
+        // to_next at the last level must refuse
+        if let Ok(last_ct) = lib(|| kit.eval.mod_switch_to_new(&ct, kit.ctx.last_parms_id())) {
+            for (name, r) in [("mod_switch_to_next_new", lib(|| { kit.eval.mod_switch_to_next_new(&last_ct); })), ("rescale_to_next_new", lib(|| { kit.eval.rescale_to_next_new(&last_ct); }))] {
+                rep.count("pairs", &format!("CKKS|{}|past_last", name));
+                if r.is_ok() { viol(&o, rep, name, "CKKS|past_last", "not_refused", "moving past the last level returned".into()); }
+            }
+        }
+    }
+    // NTT plaintext (CKKS): switched == encoded directly at the target level
+    let vals: Vec<C64> = (0..n / 2).map(|_| C64::new(rng.f64() * 8.0 - 4.0, rng.f64())).collect();
+    let scale = 2f64.powi(20);
+    for src in 0..nl { for tgt in src..nl {
+        let (sid, tid) = (*kit.levels[src].parms_id(), *kit.levels[tgt].parms_id());
+        let (Ok(ps), Ok(pt)) = (lib(|| enc.encode_c64_array_new(&vals, Some(sid), scale)), lib(|| enc.encode_c64_array_new(&vals, Some(tid), scale))) else { continue };
+        rep.count("pairs", &format!("CKKS|mod_switch_plain_to|{}->{}", src, tgt));
+        rep.eval(Some(&format!("CKKS|mspt|{}|{}", src, tgt)));
+        match lib(|| kit.eval.mod_switch_plain_to_new(&ps, &tid)) {
+            Ok(res) => if res.parms_id() != &tid || res.data() != pt.data() || res.scale().to_bits() != pt.scale().to_bits() { viol(&o, rep, "mod_switch_plain_to_new", "CKKS|plain", "value", format!("switched plaintext differs from direct encoding ({}->{})", src, tgt)); },
+            Err(p) => viol(&o, rep, "mod_switch_plain_to_new", "CKKS|plain", "panic", p.0),
+        }
+    } }
+}
+
+pub fn run(cfg: &Cfg, rep: &mut Report) -> PropMeta {
+    let per = cfg.n(16, 160) as u64;
+    for levels in 1..=6usize {
+        for scheme in [SchemeType::BFV, SchemeType::BGV] {
+            let g = format!("{}_{}", scheme_name(scheme), levels);
+            run_cases(cfg, &g, per, rep, |i, rng, rep| exact_case(cfg, &g, i, rng, rep, scheme, levels));
+        }
+        let g = format!("CKKS_{}", levels);
+        run_cases(cfg, &g, per, rep, |i, rng, rep| ckks_case(cfg, &g, i, rng, rep, levels));
+    }
+    if HANG_SEEN.load(Ordering::SeqCst) { rep.note("a call did not return within the deadline; remaining cases were skipped"); }
+    PropMeta {
+        id: "C05", level: "exploration",
+        rule: "all (source level, target level) pairs of chains with 1..6 data levels (with and without a separate key level) x ciphertext sizes 2,3,4 x BFV/BGV/CKKS x every API form of mod_switch_to_next, mod_switch_to, mod_switch_to_next_plain, mod_switch_plain_to, rescale_to_next, rescale_to; each call under a watchdog. distinct = distinct (scheme, API form, source, target, size) tuples",
+        assumptions: vec!["termination is decided as bounded progress: a call that does not return within 10 s (20 s thorough) at N<=16 is a hang".into(),
+            "target == source may either be refused or return the operand unchanged".into(),
+            "CKKS plain switching whose scale does not fit the target level is out of scope here (C03 covers refusals)".into(),
+            "message preservation asserted when the worst-case noise / magnitude fits the target modulus".into()],
+        exhaustive: true, floor: 500,
+    }
 }
